@@ -23,6 +23,8 @@ type APIConfig struct {
 	// Drop: requests of the controller to its replicas (pattern "METHOD path?action")
 	// that get no HTTP answer once (the replica died between two requests)
 	Drop []string `json:"drop,omitempty"`
+	// ExtraSize: the stand-alone node's volume is "bigger" or "smaller" than the volume ("" = same size)
+	ExtraSize string `json:"extrasize,omitempty"`
 }
 
 type apiProbe struct {
@@ -99,6 +101,16 @@ func apiServerChild() int {
 	if err != nil {
 		fmt.Fprintln(os.Stderr, "bring-up:", err)
 		return 3
+	}
+	if cfg.ExtraSize != "" && cfg.Extra != "initial" {
+		sz := int64(cfg.Blocks) * Blk * 2
+		if cfg.ExtraSize == "smaller" {
+			sz = int64(cfg.Blocks) * Blk / 2
+		}
+		if err := extra.Recreate(sz); err != nil {
+			fmt.Fprintln(os.Stderr, "extra recreate:", err)
+			return 3
+		}
 	}
 	switch cfg.Extra {
 	case "initial":
